@@ -3,7 +3,9 @@
    made ([compare(value, n.value)] is evaluated once per visited node in add;
    in find and remove only when the left child is not nil, because && short-
    circuits). Definitions only; CostProofs.v proves that the first component
-   is the uninstrumented function and bounds the second. *)
+   is the uninstrumented function and bounds the second. [run_calls] gives the
+   number of calls of every op of a history; Avl/Check.v compares it EXACTLY
+   with the calls counted on the real code by a wrapping comparator. *)
 From Typ Require Export Lib.Base Avl.Model.
 Local Open Scope Z_scope.
 
@@ -72,6 +74,34 @@ Fixpoint remove_cost (value : A) (n : tree) : result (tree * bool) * nat :=
                   else Ok (n, false), S k)
                else (Ok (n, false), 1%nat)
            end
+  end.
+
+(* ---- Tree level: Tree.Contains / Tree.Add / Tree.Remove test "n.root == nil" first
+   (no comparator call), then call the node method ---- *)
+Definition Tree_Contains_calls (t : Tree (A:=A)) (value : A) : nat :=
+  match root t with E => O | _ => snd (contains_cost value (root t)) end.
+Definition Tree_Add_calls (t : Tree (A:=A)) (value : A) : nat :=
+  match root t with E => O | _ => snd (add_cost value (root t)) end.
+Definition Tree_Remove_calls (t : Tree (A:=A)) (value : A) : nat :=
+  match root t with E => O | _ => snd (remove_cost value (root t)) end.
+
+(* comparator calls made by one op of a history in state [ts]. Len / Clear and the
+   three slices never call the comparator (Some 0); Clone (a run of Adds on a fresh
+   tree) is not counted and a bad handle runs nothing: None *)
+Definition op_calls (ts : list (Tree (A:=A))) (o : op (A:=A)) : option nat :=
+  match o with
+  | OpAdd h v => option_map (fun t => Tree_Add_calls t v) (nth_error ts h)
+  | OpRemove h v => option_map (fun t => Tree_Remove_calls t v) (nth_error ts h)
+  | OpContains h v => option_map (fun t => Tree_Contains_calls t v) (nth_error ts h)
+  | OpLen h | OpClear h | OpPre h | OpIn h | OpPost h => option_map (fun _ => O) (nth_error ts h)
+  | OpClone _ => None
+  end.
+
+(* the calls of every op of a history, each counted in the state the op starts from *)
+Fixpoint run_calls (ts : list (Tree (A:=A))) (ops : list (op (A:=A))) : list (option nat) :=
+  match ops with
+  | [] => []
+  | o :: ops' => op_calls ts o :: run_calls (fst (step eqb cmp ts o)) ops'
   end.
 
 End Cost.
